@@ -2,7 +2,7 @@ from abc import ABC, abstractmethod
 from collections.abc import Sequence
 from inspect import isclass
 from itertools import chain
-from numpy import abs, diag, exp, eye, log, zeros, ndarray, ptp, ndim, asarray
+from numpy import abs, diag, exp, eye, log, log1p, zeros, ndarray, ptp, ndim, asarray
 
 
 class CovarianceFunction(ABC):
@@ -353,14 +353,16 @@ class RationalQuadratic(CovarianceFunction):
         u, v = asarray(u, dtype=float), asarray(v, dtype=float)
         D = 0.5 * (u[:, None, :] - v[None, :, :]) ** 2
         Z = (D / L[None, None, :] ** 2).sum(axis=2)
-        return (a**2) * (1 + Z / k) ** (-k)
+        # (evaluated through log1p: the power (1 + Z/k)**(-k) loses a fraction k * eps
+        # of its value, i.e. everything as k grows towards the squared-exponential limit)
+        return (a**2) * exp(-k * log1p(Z / k))
 
     def build_covariance(self, theta: ndarray) -> ndarray:
         a = exp(theta[0])
         k = exp(theta[1])
         L = exp(theta[2:])
         Z = (self.distances / L[None, None, :] ** 2).sum(axis=2)
-        return (a**2) * ((1 + Z / k) ** (-k) + self.epsilon)
+        return (a**2) * (exp(-k * log1p(Z / k)) + self.epsilon)
 
     def covariance_and_gradients(self, theta: ndarray):
         a = exp(theta[0])
@@ -369,7 +371,7 @@ class RationalQuadratic(CovarianceFunction):
         Z = (self.distances / L[None, None, :] ** 2).sum(axis=2)
 
         F = 1 + Z / q
-        ln_F = log(F)
+        ln_F = log1p(Z / q)
         C = exp(-q * ln_F) + self.epsilon
 
         K = (a**2) * C
